@@ -350,12 +350,15 @@ func coqRouter(rt *Router, d *ids) string {
 		args := c.Args
 		return fmt.Sprintf("{| cs_has_group := %s; cs_args := %s; cs_cat := %s |}", hx.Bool(c.Type == "has_group"), coqTField(&args, d), hx.N(d.cat[c.Cat]))
 	})
-	wait := "None"
+	wait, waitTpls := "None", []string{}
 	if rt.Wait != nil {
 		wait = "(Some " + coqOptN(d.cat[rt.Wait.TimeoutCat], rt.Wait.HasTimeout) + ")"
+		if rt.Wait.Type == "dial" {
+			waitTpls = []string{rt.Wait.Phone}
+		}
 	}
-	return fmt.Sprintf("{| rt_switch := %s; rt_operand := %s; rt_cases := %s; rt_default := %s; rt_result_name := %s;\n        rt_categories := %s; rt_wait := %s |}",
-		hx.Bool(rt.Type == "switch"), coqTpl(rt.Operand), cases, coqOptN(d.cat[rt.Default], rt.Default != ""), hx.Str(rt.ResultName), cats, wait)
+	return fmt.Sprintf("{| rt_switch := %s; rt_operand := %s; rt_cases := %s; rt_default := %s; rt_result_name := %s;\n        rt_categories := %s; rt_wait := %s; rt_wait_tpls := %s |}",
+		hx.Bool(rt.Type == "switch"), coqTpl(rt.Operand), cases, coqOptN(d.cat[rt.Default], rt.Default != ""), hx.Str(rt.ResultName), cats, wait, hx.List(waitTpls, coqTpl))
 }
 
 func coqFlow(f *Flow, d *ids) string {
